@@ -16,6 +16,7 @@ mod relocate;
 mod robust;
 mod search;
 mod util;
+mod vector;
 mod validate;
 
 fn main() {
